@@ -602,3 +602,44 @@ func (c *yConn) IsValid() bool {
 }
 
 func init() { sql.Register("simsqlite", &yDriver{&sqlite3.SQLiteDriver{}}) }
+
+// RunTaskFirst runs f as a task under the cooperative scheduler with the fixed policy
+// "always resume the first parked key" until f has returned and nothing is parked. Used by
+// sequential profiles for the few operations that spawn goroutines (streams), so that they
+// stay deterministic. maxSteps bounds the loop; returns false if it was exceeded.
+func (s *Sim) RunTaskFirst(ctx context.Context, id string, f func(ctx context.Context), maxSteps int) bool {
+	was := s.on
+	s.on = true
+	done := make(chan struct{})
+	s.Spawn(ctx, id, func(c context.Context) {
+		defer close(done)
+		f(c)
+	})
+	s.Settle()
+	ok := false
+	for i := 0; i < maxSteps; i++ {
+		keys := s.ParkedKeys()
+		if len(keys) == 0 {
+			select {
+			case <-done:
+				ok = true
+			default:
+				// blocked natively on a timer: let virtual time pass
+				time.Sleep(time.Second)
+				s.Settle()
+				continue
+			}
+			break
+		}
+		s.Resume(keys[0])
+	}
+	s.mu.Lock()
+	s.on = was
+	for k, ch := range s.parked {
+		close(ch)
+		delete(s.parked, k)
+	}
+	s.mu.Unlock()
+	s.Settle()
+	return ok
+}
